@@ -1,5 +1,6 @@
 \* the design the property asks for: all three repair switches on, every invariant
-\* (tools/checks/c09.py builds its configurations from the same template; this file is the thorough-tier one, for manual runs:
+\* (tools/checks/c09.py builds its configurations from the same template - the Fix* switches of the configurations that model
+\*  the real code come from its REPAIRED table; this file is the thorough-tier one, for manual runs:
 \*  java -cp $TLA_CP tlc2.TLC -config StreamCli_mc_fixed.cfg StreamCliMC)
 SPECIFICATION Spec
 CONSTANTS
